@@ -22,8 +22,8 @@ def cfg(name, comment, inv=INV, **kw):
 cfg("x_w3_linear", "W=3, one chain of 9 blocks, every vote pattern, 4 deployment definitions,\nevery order of queries at the key nodes.")
 cfg("x_w2_fork", "W=2, a chain with one side branch from any block, every vote pattern.",
     W=2, NetThr=2, Starts="{0, 1}", Timeouts="{0}", MaxHeight=6, MaxBlocks=7, MaxLeaves=2)
-cfg("x_w3_fork", "W=3, a chain with one side branch from any block (<= 10 blocks), every vote pattern.",
-    MaxLeaves=2, MaxBlocks=10, Timeouts="{0}")
+cfg("x_w3_fork", "W=3, a chain with one side branch from any block (<= 9 blocks), every vote pattern.",
+    MaxLeaves=2, MaxBlocks=9, Timeouts="{0}")
 cfg("x_w3_params", "W=3, one chain of 11 blocks, every vote pattern, the whole parameter menu\n(custom threshold, minimum activation height, always-active height, timeouts).",
     MaxBlocks=11, MaxHeight=11, Timeouts="{0, 4}", Thrs="{0, 3}", MinHs="{0, 10}", Alwayss="{0, 8}", MaxTime=16)
 cfg("x_w3_times", "W=3, one chain of 9 always-signalling blocks, every timestamp pattern with steps -1/+1/+2,\nstart and timeout menus around the reachable median times.",
@@ -31,7 +31,7 @@ cfg("x_w3_times", "W=3, one chain of 9 always-signalling blocks, every timestamp
 cfg("x_w4_linear", "W=4, threshold 3, one chain of 13 blocks, every vote pattern.",
     W=4, NetThr=3, MaxBlocks=13, MaxHeight=13, Starts="{0, 3}", Timeouts="{0}", MaxTime=16)
 cfg("x_k2", "Two deployments (one asked for by block acceptance itself), W=2, NextVer on.",
-    W=2, NetThr=2, K=2, Implicit="{1}", Starts="{0, 1}", Timeouts="{0}", MaxHeight=7, MaxBlocks=7, Ver="Ver2Few", NextVerOn="TRUE")
+    W=2, NetThr=2, K=2, Implicit="{1}", Starts="{0, 1}", Timeouts="{0}", MaxHeight=6, MaxBlocks=6, Ver="Ver2Few", NextVerOn="TRUE")
 
 # ---- small recording configurations: state graph dumped, paths replayed ---
 cfg("g_w2_small", "Recording; W=2; 16 deployment definitions (start, timeout, minimum activation height, always-active height);\ngraph dumped and its transitions replayed on the real code.",
